@@ -68,7 +68,7 @@ def main():
                 patch = os.path.join(d, "patch.rebased.diff")
                 if not os.path.exists(patch):
                     patch = os.path.join(d, "patch.diff")
-                jobs.append(ex.submit(trial, "seeded", name, patch, None, [name.split("-")[0]]))
+                jobs.append(ex.submit(trial, "seeded", name, patch, None, [name.split("-")[0].rstrip("abcdefgh")]))
         if "fixes" in which:
             kf = json.load(open(os.path.join(VERIF, "known_findings.json")))["findings"]
             seen = set()
